@@ -42,6 +42,7 @@ struct Digest {
 struct Prefill {
     int kind = 0; // 0 zero, 1 garbage, 2 word64, 3 word32
     uint64_t w = 0;
+    unsigned shift = 0; // byte offset of buffers inside their blocks (multiples of 8 for typed outputs)
     void apply(void *p, size_t n, uint64_t salt) const {
         uint8_t *c = (uint8_t *)p;
         switch (kind) {
@@ -63,13 +64,17 @@ struct Prefill {
 
 struct Buf { // heap buffer with a canary tail: silent damage must not outlive the call
     uint8_t *p;
+    uint8_t *base;
     size_t n;
     Buf(size_t n_, const Prefill &pf, uint64_t salt) : n(n_) {
-        p = (uint8_t *)malloc(n + 64);
+        // pf.shift moves the buffer inside its block: results must not depend on the
+        // address (alignment, parity) of caller-owned memory either
+        base = (uint8_t *)malloc(n + 64 + 64);
+        p = base + (pf.shift & 63);
         pf.apply(p, n, salt);
         memset(p + n, 0xC7, 64);
     }
-    ~Buf() { free(p); }
+    ~Buf() { free(base); }
     bool intact() const {
         for (size_t i = 0; i < 64; i++)
             if (p[n + i] != 0xC7) return false;
@@ -410,6 +415,9 @@ class Residue : public Engine {
         c.push_back({"crafted-width", stackctx::WORD64, wd.w, alloc::Fill::Pattern, wd, 0});
         c.push_back({"self-history", stackctx::ZERO, 0, alloc::Fill::Garbage, garb, 2});
         c.push_back({"self-history-same", stackctx::GARBAGE, seed ^ 0x77, alloc::Fill::Garbage, garb, 3});
+        Prefill moved = garb;
+        moved.shift = 8 * (1 + (unsigned)(seed % 7)); // other addresses, same alignment class for typed outputs
+        c.push_back({"moved-buffers", stackctx::ZERO, 0, alloc::Fill::Zero, moved, 0});
         (void)op;
         return c;
     }
@@ -590,7 +598,7 @@ class Residue : public Engine {
             Op keep = op;
             keep.set("fresh", 0);
             recent_.push_back(keep);
-            if (recent_.size() > 48) recent_.erase(recent_.begin());
+            if (recent_.size() > 4000) recent_.erase(recent_.begin());
         }
         return out;
     }
